@@ -158,7 +158,9 @@ func (h *Header) TakeFrom(src []byte) ([]byte, error) {
 		return nil, err
 	}
 
-	wantedSize := int(h.archiveCount * archiveInfoListSize)
+	// NOTE: archiveCount is untrusted; multiply in int64 since
+	// archiveCount * archiveInfoListSize may wrap uint32.
+	wantedSize := int(int64(h.archiveCount) * archiveInfoListSize)
 	if len(src) < wantedSize {
 		return nil, &WantLargerBufferError{WantedBufSize: metaSize + wantedSize}
 	}
